@@ -1418,8 +1418,14 @@ impl StoryState {
             .set_callstack(self.current_flow.callstack.clone());
 
         if let Some(eval_stack_obj) = j_object.get("evalStack") {
-            self.evaluation_stack =
+            let loaded =
                 json_read::jarray_to_runtime_obj_list(json_read::as_array(eval_stack_obj)?, false)?;
+
+            // Pushed one by one, so that lists find their origins again
+            self.evaluation_stack.clear();
+            for obj in loaded {
+                self.push_evaluation_stack(obj);
+            }
         }
 
         if let Some(current_divert_target_path) = j_object.get("currentDivertTarget") {
